@@ -391,6 +391,8 @@ func RandomGenesis(u *Universe, r *vlib.Rng) Genesis {
 		key := u.ValKeys[len(u.ValKeys)-1-i]
 		g.Validators = append(g.Validators, ValUpdate(key, int64(10*(1+r.Intn(3)))))
 	}
+	// a chain initialised with "chain init --dev": validator updates are computed but not returned
+	g.DevMode = r.Chance(1, 5)
 	return g
 }
 
